@@ -54,6 +54,21 @@ impl DiagnosticEmitter {
         (emitter, buffer)
     }
 
+    /// Verification hook: an emitter whose output stream fails (closed pipe, full disk) after `good_bytes` bytes
+    #[cfg(mos_verif)]
+    pub fn failing_after(display_style: DisplayStyle, good_bytes: usize, os_error: i32) -> Self {
+        Self {
+            writer: Box::new(verif_buffer::FailingStream {
+                good_bytes,
+                os_error,
+            }),
+            config: Config {
+                display_style,
+                ..Default::default()
+            },
+        }
+    }
+
     pub fn emit(&mut self, error: anyhow::Error) {
         match error.downcast_ref::<Diagnostics>() {
             Some(d) => {
@@ -109,6 +124,40 @@ mod verif_buffer {
         }
 
         fn flush(&mut self) -> io::Result<()> {
+            Ok(())
+        }
+    }
+
+    pub struct FailingStream {
+        pub good_bytes: usize,
+        pub os_error: i32,
+    }
+
+    impl io::Write for FailingStream {
+        fn write(&mut self, buf: &[u8]) -> io::Result<usize> {
+            if self.good_bytes == 0 {
+                return Err(io::Error::from_raw_os_error(self.os_error));
+            }
+            let n = buf.len().min(self.good_bytes);
+            self.good_bytes -= n;
+            Ok(n)
+        }
+
+        fn flush(&mut self) -> io::Result<()> {
+            Ok(())
+        }
+    }
+
+    impl WriteColor for FailingStream {
+        fn supports_color(&self) -> bool {
+            false
+        }
+
+        fn set_color(&mut self, _: &ColorSpec) -> io::Result<()> {
+            Ok(())
+        }
+
+        fn reset(&mut self) -> io::Result<()> {
             Ok(())
         }
     }
